@@ -82,6 +82,8 @@ type Workload struct {
 	Rush      bool      `json:"rush"`        // before the scripts: all clients attach one brand-new key at the same time
 	Watchers  int       `json:"watchers"`    // raw WatchDocument streams on document 0 that come and go while the scripts run
 	WatchGap  int       `json:"watchgap"`    // base life time of a watch stream (x 1ms, varied per loop)
+	MaxSubs   int       `json:"maxsubs"`     // project limit of watch streams per document (0 = unlimited): watchers beyond it are refused and retry
+	MaxAtt    int       `json:"maxatt"`      // != 0: the project limits attachments per document to what the setup needs: later attaches may be refused
 	Yield     uint64    `json:"yield"`       // != 0: pseudo-random yields/sleeps injected at every lock boundary and storage call of the sync path
 }
 
@@ -108,6 +110,14 @@ func genWorkload() *rapid.Generator[Workload] {
 			Rush:      rapid.IntRange(0, 1).Draw(t, "rush") == 0,
 			Watchers:  max(0, rapid.IntRange(-3, 6).Draw(t, "watchers")),
 			WatchGap:  rapid.IntRange(0, 40).Draw(t, "watchgap"),
+		}
+		switch rapid.IntRange(0, 5).Draw(t, "limits") {
+		case 0:
+			w.MaxSubs = rapid.IntRange(1, 2).Draw(t, "maxsubs")
+			w.Watchers = max(w.Watchers, w.MaxSubs+rapid.IntRange(1, 3).Draw(t, "extrawatchers"))
+		case 1:
+			// (the rush phase and the duplicate-request peer attach beyond what the setup needs)
+			w.MaxAtt, w.Rush, w.Dup = 1, false, false
 		}
 		if rapid.IntRange(0, 2).Draw(t, "yieldon") > 0 {
 			w.Yield = rapid.Uint64Range(1, 1<<40).Draw(t, "yield")
@@ -290,6 +300,10 @@ func (r *run) clientScript(p *peer, sc []WStep) *kit.Failure {
 			}
 			nd := document.New(k)
 			if err := r.timed(string(k), func() error { return p.c.Attach(ctx, nd) }); err != nil {
+				if r.w.MaxAtt != 0 && strings.Contains(err.Error(), "attachments allowed per document") {
+					r.count("attach_refused_by_limit")
+					continue
+				}
 				return kit.Failf("ATTACHFAIL", "c%d doc %d: %v", p.idx, st.D, err)
 			}
 			p.docs[st.D] = nd
@@ -344,7 +358,20 @@ func execute(w Workload) (fail *kit.Failure, ev map[string]int, hist []string) {
 	s := world.Get()
 	r := &run{s: s, w: w, stamps: map[string][]stamp{}, hists: map[string]*docHist{}, ev: map[string]int{}, dupIDs: map[string]bool{}}
 	ctx := context.Background()
-	proj := s.Project(w.Interval, w.Threshold, "c16")
+	maxAtt := 0
+	if w.MaxAtt != 0 {
+		// what the setup attaches to the busiest document (client 0 has all, client c has c%Docs)
+		for d := 0; d < w.Docs; d++ {
+			n := 0
+			for c := 0; c < w.Clients; c++ {
+				if c == 0 || d == c%w.Docs {
+					n++
+				}
+			}
+			maxAtt = max(maxAtt, n)
+		}
+	}
+	proj := s.ProjectLimits(w.Interval, w.Threshold, "c16", false, w.MaxSubs, maxAtt)
 	for d := 0; d < w.Docs; d++ {
 		r.keys = append(r.keys, key.Key(world.FreshDocKey("c16")))
 	}
@@ -664,9 +691,17 @@ func (r *run) watcher(proj *types.Project, k key.Key, wi, gap int, done <-chan s
 			return kit.Failf("WATCHFAIL", "watcher %d: WatchDocument of an active client failed: %v", wi, err)
 		}
 		fin := make(chan struct{})
+		first := make(chan bool, 1)
 		read := (loop+wi)%2 == 0
 		go func() {
 			defer close(fin)
+			// the first message answers the request: the initialisation of an
+			// accepted watch, or the refusal
+			ok := st.Receive()
+			first <- ok
+			if !ok {
+				return
+			}
 			if !read {
 				<-wctx.Done()
 				return
@@ -675,6 +710,26 @@ func (r *run) watcher(proj *types.Project, k key.Key, wi, gap int, done <-chan s
 				r.count("watch_event_received")
 			}
 		}()
+		select {
+		case ok := <-first:
+			if !ok {
+				err := st.Err()
+				cancel()
+				<-fin
+				_ = st.Close()
+				if r.w.MaxSubs > 0 && connect.CodeOf(err) == connect.CodeResourceExhausted {
+					// refused by the project's subscriber limit: retry like an SDK watch loop does
+					r.count("watch_refused_by_limit")
+					gotime.Sleep(gotime.Duration(1+loop%3) * gotime.Millisecond)
+					continue
+				}
+				return kit.Failf("WATCHFAIL", "watcher %d: WatchDocument of an active client was refused: %v", wi, err)
+			}
+		case <-gotime.After(20 * gotime.Second):
+			cancel()
+			return kit.Failf("DEADLOCK", "watcher %d (attempt %d): WatchDocument was neither accepted nor refused within 20 s; locks held:\n%s\n%s",
+				wi, loop, world.Locks.HeldSummary(), abbreviate(goroutineDump(), 4000))
+		}
 		gotime.Sleep(gotime.Duration((gap*(loop%4+1))%60)*gotime.Millisecond + gotime.Duration(loop%7)*150*gotime.Microsecond)
 		cancel()
 		<-fin
@@ -959,7 +1014,7 @@ func runWorkloads(t *testing.T, prop, part string, isMine func(kind string) bool
 			rt.Fatalf("%s", failed.Error())
 		}
 		if prop == "C04" {
-			w.Dup = true // the C04 part always includes the duplicate-request peer
+			w.Dup, w.MaxAtt = true, 0 // the C04 part always includes the duplicate-request peer
 		}
 		kit.SetInflight(childEnv, part, "workload", fmt.Sprintf("workload-%016x", wlHash(w)), w)
 		fail, ev, hist := execute(w)
